@@ -37,6 +37,16 @@ Definition chk_collection
   res_beq (pair_beq (list_beq cog_tuple_beq) lookup_beq)
           (res_map (fun r => (map cog_to_tuple (fst r), snd r)) (collection obs o)) e.
 
+(* A group re-read AFTER it has been used (register / measurement circuit / outcome decoding):
+   `before` = the fields recorded when it was built, `after` = the fields re-read after the use.
+   The model's cog_post_init result is a value: nothing may have changed, and the re-read indices and
+   masks must still be what the model computes from the general observable and the members. *)
+Definition cog_still_valid (before after : cog_tuple) : bool :=
+  let '(g, ms, _, _) := before in
+  let '(_, _, ix', mk') := after in
+  cog_tuple_beq before after &&
+  res_beq (pair_beq nlist_beq Nlist_beq) (cog_post_init g ms) (Ok (ix', mk')).
+
 (* circuits: (num_qubits, num_clbits, cregs, data) *)
 Definition mc_tuple := (nat * nat * list (bool * list nat) * circ)%type.
 Definition mc_of (t : mc_tuple) : mcirc := let '(nq, nc, regs, d) := t in mkMC nq nc regs d.
@@ -45,17 +55,31 @@ Definition mcirc_beq (a b : mcirc) : bool :=
   list_beq (pair_beq Bool.eqb nlist_beq) (mcregs a) (mcregs b) &&
   circ_beq (mdata a) (mdata b).
 
-(* _append_measurement_register: (circuit, cog.pauli_indices, expected circuit) *)
-Definition chk_meas_reg (c : mc_tuple * list nat * res mc_tuple) : bool :=
-  let '(qc, idx, e) := c in
-  res_beq mcirc_beq (append_measurement_register (mc_of qc) idx) (res_map mc_of e).
+(* _append_measurement_register: (circuit, group before, expected circuit, group re-read after the call) *)
+Definition chk_meas_reg (c : mc_tuple * cog_tuple * res mc_tuple * cog_tuple) : bool :=
+  let '(qc, before, e, after) := c in
+  let '(_, _, idx, _) := before in
+  res_beq mcirc_beq (append_measurement_register (mc_of qc) idx) (res_map mc_of e) &&
+  cog_still_valid before after.
 
 (* _append_measurement_circuit:
-   (gate id of h, gate id of sx, circuit, general letters, cog.pauli_indices, qubit_locations, expected) *)
+   (gate id of h, gate id of sx, circuit, group before, qubit_locations, expected, group re-read after) *)
 Definition chk_meas_circ
-  (c : nat * nat * mc_tuple * list nat * list nat * option (list nat) * res mc_tuple) : bool :=
-  let '(gh, gsx, qc, g, idx, locs, e) := c in
-  res_beq mcirc_beq (append_measurement_circuit gh gsx (mc_of qc) g idx locs) (res_map mc_of e).
+  (c : nat * nat * mc_tuple * cog_tuple * option (list nat) * res mc_tuple * cog_tuple) : bool :=
+  let '(gh, gsx, qc, before, locs, e, after) := c in
+  let '(g, _, idx, _) := before in
+  res_beq mcirc_beq (append_measurement_circuit gh gsx (mc_of qc) (plets g) idx locs) (res_map mc_of e) &&
+  cog_still_valid before after.
+
+(* use then re-inspect: the group is used (register, measurement circuit, _process_outcome on the listed
+   integer outcomes), possibly several times, and re-read after every step:
+   (group when built, [group re-read after step k], [(outcome, _process_outcome result)]) *)
+Definition Zlist_beq := list_beq Z.eqb.
+Definition chk_reuse (c : cog_tuple * list cog_tuple * list (N * list Z)) : bool :=
+  let '(before, afters, outs) := c in
+  let '(_, _, idx, masks) := before in
+  forallb (cog_still_valid before) afters &&
+  forallb (fun orr => Zlist_beq (process_outcome idx masks (fst orr)) (snd orr)) outs.
 
 (* physics: (general, members, outcome law of the observable register under an independent simulator
    [(word, probability)], true expectation value of each member).  The model's masks and decoding
